@@ -265,16 +265,19 @@ structure CtorRow where
   result : Option (List PExpr × List (Option PExpr))
   deriving DecidableEq, Repr
 
-/-- **fixed wins**: a fixed parameter is the fixed value and remembered as fixed; a free one is
-the given value (or a literal default) and not marked fixed. -/
-def ctorRowOk (r : CtorRow) : Bool :=
-  match r.result with
-  | none => false
-  | some (ps, fs) =>
-    (List.range ps.length).all fun p =>
+/-- **fixed wins**: the row records exactly one value and one `f_` attribute per parameter of the
+family (`ps.length = fs.length = f.params.length`: a table that dropped a parameter is rejected);
+a fixed parameter is the fixed value and remembered as fixed; a free one is the given value (or a
+literal default) and not marked fixed. -/
+def ctorRowOk (fams : List Family) (r : CtorRow) : Bool :=
+  match r.result, fams[r.fam]? with
+  | some (ps, fs), some f =>
+    ps.length == f.params.length && fs.length == f.params.length &&
+    (List.range f.params.length).all fun p =>
       if p ∈ r.fixed then ps[p]? == some (.farg p) && fs[p]? == some (some (.farg p))
       else fs[p]? == some none &&
         (if p ∈ r.given then ps[p]? == some (.arg p) else (ps[p]?.map PExpr.isConst) == some true)
+  | _, _ => false
 
 def ctorTableComplete (fams : List Family) (rows : List CtorRow) : Bool :=
   (List.range fams.length).all fun i =>
@@ -297,11 +300,15 @@ structure CondRow where
   result : Option (List PExpr)
   deriving DecidableEq, Repr
 
-def condRowOk (r : CondRow) : Bool :=
-  match r.result with
-  | none => false
-  | some ps => (List.range ps.length).all fun p =>
+/-- one value per parameter of the family (`ps.length = f.params.length`), the fixed value for a
+fixed parameter, the dependence function's value for any other -/
+def condRowOk (fams : List Family) (r : CondRow) : Bool :=
+  match r.result, fams[r.fam]? with
+  | some ps, some f =>
+    ps.length == f.params.length &&
+    (List.range f.params.length).all fun p =>
       ps[p]? == some (if p ∈ r.fixed then .farg p else .dep p)
+  | _, _ => false
 
 /-! ### scipy's fit contract (`rv_continuous.fit`, `_reduce_func`, `_check_fit_input_parameters`) -/
 
@@ -428,14 +435,17 @@ def fitRowOk (scipyShapes : List (String × List String)) (base : Option (String
         afterOk r shapes kws
     | _, _ => false
 
-/-- the obligation for the whole table: every row with a proper subset of the family's parameters
-fixed -/
+/-- the obligation for the whole table: every row records `.parameters` afterwards with one entry
+per parameter of the family (`after.length = f.params.length`: `afterOk` runs over the recorded
+list, so a row that dropped a parameter would otherwise pass), and every row with a proper subset
+of the family's parameters fixed meets `fitRowOk` -/
 def fitTableOk (fams : List Family) (scipyShapes : List (String × List String))
     (bases : List (String × List PExpr)) (rows : List FitRow) : Bool :=
   rows.all fun r =>
     match fams[r.fam]? with
     | none => false
-    | some f => !(decide (r.fixed.length < f.params.length)) || fitRowOk scipyShapes bases[r.fam]? r
+    | some f => r.after.length == f.params.length &&
+        (!(decide (r.fixed.length < f.params.length)) || fitRowOk scipyShapes bases[r.fam]? r)
 
 def fitTableComplete (fams : List Family) (rows : List FitRow) : Bool :=
   (List.range fams.length).all fun i =>
